@@ -366,7 +366,7 @@ func cmdCheck(args []string) int {
 	}
 	cfg := SolveCfg{T1: 10 * time.Second, T2: 12 * time.Second, Seed: seed, Workers: 8, SaveDir: *save}
 	if *tier == "thorough" {
-		cfg.T1, cfg.T2 = 30*time.Second, 90*time.Second
+		cfg.T1, cfg.T2 = 30*time.Second, 30*time.Second
 	}
 	var real, canaries, covers []*Obligation
 	for _, ob := range ex.obls {
@@ -458,6 +458,8 @@ func cmdCheck(args []string) int {
 	sort.Strings(names)
 	violations := 0
 	var knownLines, violLines []string
+	var witnessRuns []map[string]interface{}
+	corpusMiss := false
 	discharged := 0
 	var perOb []map[string]interface{}
 	var solverMs int64
@@ -524,6 +526,21 @@ func cmdCheck(args []string) int {
 	for _, l := range knownLines {
 		fmt.Println(l)
 	}
+	if *tier == "thorough" {
+		// thorough: every open known finding of this property must still be reproduced by its witness
+		for _, f := range findings {
+			if f.Status != "open" || f.Property != P || f.Witness == "" {
+				continue
+			}
+			out, ok := runOverlayTest(*repo, filepath.Join(verifDir, f.Witness))
+			if ok {
+				fmt.Printf("KNOWN-FINDING-WITNESS reproduced on the real code: %s (%s)\n", f.Obligation, f.Witness)
+			} else {
+				fmt.Printf("NOTE: witness of known finding %s did NOT reproduce (%s): %s\n", f.Obligation, f.Witness, clip(strings.ReplaceAll(out, "\n", " | "), 300))
+			}
+			witnessRuns = append(witnessRuns, map[string]interface{}{"obligation": f.Obligation, "witness": f.Witness, "reproduced": ok})
+		}
+	}
 	for _, l := range violLines {
 		fmt.Println(l)
 	}
@@ -534,6 +551,16 @@ func cmdCheck(args []string) int {
 		}
 		sort.Strings(u)
 		fmt.Println("UNCOVERED fields (no discipline declared; reported, not a violation):", strings.Join(u, " "))
+	}
+	var corpus map[string]interface{}
+	if *tier == "thorough" && *only == "" && *repo == "/repo" && violations == 0 {
+		ran, caught, missed, skipped := runCorpus(*repo, P)
+		corpus = map[string]interface{}{"changes_applied_to_scratch_copies": ran, "reported_as_violation": caught, "missed": missed, "skipped": skipped}
+		fmt.Printf("must-fail corpus for %s: %d property-breaking changes applied to scratch copies, %d reported as violations\n", P, ran, caught)
+		for _, m := range missed {
+			fmt.Println("ERROR corpus: change not detected:", m)
+			corpusMiss = true
+		}
 	}
 	var noteList []string
 	abstracted := false
@@ -560,6 +587,9 @@ func cmdCheck(args []string) int {
 		if exit == 0 {
 			exit = 2
 		}
+	}
+	if corpusMiss && exit == 0 {
+		exit = 2
 	}
 	if len(vacuous) > 0 {
 		fmt.Println("ERROR vacuous: no reachable return in", strings.Join(vacuous, ", "))
@@ -604,6 +634,8 @@ func cmdCheck(args []string) int {
 				"solver_time_s":            float64(solverMs) / 1000.0,
 				"samples":                  samples,
 				"known_findings":           knownLines,
+				"known_finding_witness_runs": witnessRuns,
+				"must_fail_corpus":         corpus,
 				"engine_notes":             noteList,
 				"abstracted":               abstracted,
 				"uses":                     used,
